@@ -54,6 +54,8 @@ def variant_spec(base, config_index, variant):
     s['seed'] = r.randrange(1 << 62)
     s['sched'] = workload.gen_sched(r, parallel=True)
     s['sched']['p_time'] = r.choice([0.0, 0.05, 0.3])
+    s['sched']['wall_cap'] = 6.0
+    s['sched']['step_cap'] = 120000
     s.pop('choices', None)
     return s
 
@@ -91,9 +93,18 @@ class C18(props.Prop):
         return (wid // V) % groups + k * groups
 
     def gen(self, rng, tier):
+        text = None
+        if rng.random() < 0.4:
+            # many symbols of few sorts: order of name tables matters
+            from .. import gen_input
+            text = gen_input.gen_script(
+                rng, feats=set(rng.sample(['int', 'bv', 'real', 'str'], 1) +
+                               rng.sample(['let', 'uf', 'deffun', 'quant'], 1)),
+                size=rng.choice([3, 5, 8]))
         spec = workload.base_spec(
             rng,
             jobs=(1, ),
+            text=text,
             small=rng.random() < 0.6,
             model_style=rng.choice(['hash', 'mixed', 'contains', 'count',
                                     'subseq']),
@@ -103,7 +114,21 @@ class C18(props.Prop):
         # commands sensitive to symbol names (they are: functions of tokens)
         spec['model']['canon_fresh'] = False
         reg = mutator_registry()
-        spec['opts'] += workload.gen_mutator_opts(rng, reg, p=0.3)
+        k = rng.random()
+        if k < 0.3:
+            # walks among the rewriting mutators (which enumerate names,
+            # sorts and tables), erasers off
+            from .c03 import ERASERS
+            keep = [e for e in ERASERS if e != 'replace-by-variable']
+            spec['opts'] += [f'--no-{o}' for o in rng.sample(
+                keep, rng.randint(2, len(keep)))]
+        elif k < 0.45:
+            names = sorted(reg['options'])
+            spec['opts'] += ['--disable-all'] + [
+                f'--{o}' for o in rng.sample(names, rng.randint(2, 8))
+            ] + rng.choice([[], ['--replace-by-variable']])
+        else:
+            spec['opts'] += workload.gen_mutator_opts(rng, reg, p=0.3)
         return {'prop': 'C18', 'runs': [spec]}
 
     def run(self, case):
